@@ -159,7 +159,7 @@ def focused(tier):
                    {"A": klass([ARR, None], [[1.0, 0.5], [4.0, 2.0]], route=matrix([[0.0, 1.0], [0.0, 0.0]]), renege=[None, [1.0, 2.5]])},
                    K=K, T=16.0, features=["blocking", "reneging"]))
     # nodes without server objects (infinite / slotted / PS) upstream of a full node, simultaneous service ends
-    out += noserver_upstream_block(tier, ps=False)   # PS nodes with blocking are outside the quantifier (cf. C19)
+    out += noserver_upstream_block(tier, ps=False, preempt=False)   # PS nodes with blocking are outside the quantifier (cf. C19)
     return out
 
 
